@@ -139,6 +139,7 @@ type FuncCtx struct {
 	observed      map[string]bool
 	callOrd       map[*ast.CallExpr]int
 	inAtCall      bool
+	atCallExpr    *ast.CallExpr // the call an "at call" clause is being evaluated for (arg(k))
 	atLit         map[*Clause]*ast.CallExpr
 	renames       map[string]string   // baseline local name -> current name (pure renaming)
 	sliceAlias    map[*types.Var]bool // local slice assigned from another slice (element, sub-slice, variable)
